@@ -1,6 +1,6 @@
 /* C13 - multi-threaded stress driver (real threads, real sockets on loopback, real public API).
  *
- *   h_lock_stress <seconds> <workers 2..8> <seed>
+ *   h_lock_stress <seconds> <workers 2..8> <seed> [profile: 1 = mostly short-lived sessions]
  *
  * One context acts as server and client.  One thread sits in coap_io_process(); <workers> threads
  * issue, at random: CON/NON requests (send), coap_resource_notify_observers (notify), client
@@ -12,6 +12,11 @@
  * STALL seconds is reported as STUCK together with the state of global_lock and what every thread
  * was doing (a concrete hang).  Built with -fsanitize=thread, ThreadSanitizer reports data races.
  * Application-side shared data uses atomics so that every report concerns the library.
+ *
+ *   h_lock_stress errpaths
+ * Error paths of API functions that take the lock themselves: a call that FAILS must leave the
+ * lock released.  coap_new_context(&addr) with an address that cannot be bound fails; a second
+ * thread then makes an ordinary API call and must return (3 s watchdog).
  *
  * output (stdout): one summary line  "stress ok ops=.. sent=.. responses=.. ..." or
  *                  "STUCK ..." lines followed by "stress FAILED".   exit code 0 / 3.
@@ -36,6 +41,7 @@ static coap_address_t srv_addr;
 static coap_resource_t *res_static, *res_obs, *res_async;
 static atomic_int stop_workers, stop_io;
 static int nworkers;
+static int profile;              /* 1: mostly short-lived sessions with traffic in flight */
 
 typedef struct {
   pthread_t th;
@@ -217,6 +223,23 @@ static void op_session(worker_t *w) {
   atomic_fetch_add(&n_sess, 1);
 }
 
+/* a short-lived client session with traffic in flight when the application drops its reference:
+   the reply makes the socket readable around the time the session is freed */
+static void op_session_send(worker_t *w) {
+  coap_session_t *s = coap_new_client_session(ctx, NULL, &srv_addr, COAP_PROTO_UDP);
+  if (!s) return;
+  coap_pdu_t *p = coap_new_pdu(COAP_MESSAGE_NON, COAP_REQUEST_CODE_GET, s);
+  if (p) {
+    uint8_t tok[2] = {0x5e, (uint8_t)w->id};
+    coap_add_token(p, 2, tok);
+    coap_add_option(p, COAP_OPTION_URI_PATH, 2, (const uint8_t *)"r0");
+    if (coap_send(s, p) != COAP_INVALID_MID) atomic_fetch_add(&n_sent, 1);
+  }
+  usleep(rnd(&w->seed) % 400);
+  coap_session_release(s);
+  atomic_fetch_add(&n_sess, 1);
+}
+
 static void op_resource(worker_t *w, unsigned k) {
   char name[32];
   snprintf(name, sizeof(name), "t%d-%u", w->id, k & 3);
@@ -232,7 +255,9 @@ static void op_resource(worker_t *w, unsigned k) {
   key.s = (const uint8_t *)name;
   key.length = strlen(name);
   coap_resource_t *f = coap_get_resource_from_uri_path(ctx, &key);
-  if (f) coap_delete_resource(ctx, f);
+  /* both documented call forms: the context argument is ignored by the library
+     (man coap_resource: examples call coap_delete_resource(NULL, r)) */
+  if (f) coap_delete_resource((k & 4) ? ctx : NULL, f);
   atomic_fetch_add(&n_res, 1);
 }
 
@@ -275,7 +300,8 @@ static void *worker_main(void *arg) {
     else if (x < 40) { atomic_store(&w->what, "send-non"); op_send(w, "r0", 0, COAP_REQUEST_CODE_GET); }
     else if (x < 48) { atomic_store(&w->what, "send-put"); op_send(w, "r0", 1, COAP_REQUEST_CODE_PUT); }
     else if (x < 60) { atomic_store(&w->what, "notify"); coap_resource_notify_observers(res_obs, NULL); atomic_fetch_add(&n_notify, 1); }
-    else if (x < 70) { atomic_store(&w->what, "session"); op_session(w); }
+    else if (x < 64) { atomic_store(&w->what, "session"); op_session(w); }
+    else if (x < 70 || profile == 1) { atomic_store(&w->what, "session-send-release"); op_session_send(w); }
     else if (x < 80) { atomic_store(&w->what, "resource"); op_resource(w, k); }
     else if (x < 88) { atomic_store(&w->what, "cache"); op_cache(w); }
     else if (x < 93) { atomic_store(&w->what, "ping"); if (w->ping_sess) coap_session_send_ping(w->ping_sess); }
@@ -366,10 +392,54 @@ static int watchdog(double until, int need_finished) {
   }
 }
 
+static atomic_int ep_done;
+static void *errpaths_other(void *arg) {
+  (void)arg;
+  coap_context_t *c = coap_new_context(NULL);     /* takes the global lock */
+  if (c) coap_free_context(c);
+  atomic_store(&ep_done, c ? 1 : 2);
+  return NULL;
+}
+
+static int errpaths(void) {
+  coap_address_t bad;
+  coap_startup();
+  coap_set_log_level(COAP_LOG_EMERG);
+  coap_address_init(&bad);
+  bad.addr.sin.sin_family = AF_INET;
+  bad.addr.sin.sin_addr.s_addr = htonl(0xC0000201u);   /* 192.0.2.1 (TEST-NET-1): not a local address */
+  bad.addr.sin.sin_port = htons(5683);
+  bad.size = sizeof(struct sockaddr_in);
+  coap_context_t *c = coap_new_context(&bad);
+  if (c) {                                           /* could be bound after all: nothing to test */
+    coap_free_context(c);
+    printf("errpaths ok skipped (address was bindable)\n");
+    return 0;
+  }
+  pthread_t th;
+  pthread_create(&th, NULL, errpaths_other, NULL);
+  double t0 = now_s();
+  while (!atomic_load(&ep_done) && now_s() - t0 < 3.0) usleep(20 * 1000);
+  if (!atomic_load(&ep_done)) {
+    printf("STUCK coap_new_context(&unbindable address) returned NULL and left the global lock held: "
+           "coap_new_context(NULL) in a second thread has been waiting for %.1f s\n", now_s() - t0);
+    dump_lock();
+    printf("stress FAILED stuck errpaths\n");
+    fflush(stdout);
+    _exit(3);
+  }
+  pthread_join(th, NULL);
+  coap_cleanup();
+  printf("errpaths ok failed_call_released_lock=1 second_thread=%d\n", atomic_load(&ep_done));
+  return 0;
+}
+
 int main(int argc, char **argv) {
+  if (argc > 1 && strcmp(argv[1], "errpaths") == 0) return errpaths();
   double secs = argc > 1 ? atof(argv[1]) : 5.0;
   nworkers = argc > 2 ? atoi(argv[2]) : 4;
   unsigned seed = argc > 3 ? (unsigned)atoi(argv[3]) : 1;
+  profile = argc > 4 ? atoi(argv[4]) : 0;
   if (nworkers < 1) nworkers = 1;
   if (nworkers > MAXW) nworkers = MAXW;
   setvbuf(stdout, NULL, _IOLBF, 0);
